@@ -248,6 +248,15 @@ theorem messages_name_the_peers_id :
     PV.Generated.ChanLock.ownIdInMessages = 0 ∧ 0 < PV.Generated.ChanLock.remoteIdInMessages := by
   decide
 
+/-- **No wire write under the channel lock.**  No method of class Channel calls `transport._send_user_message` /
+    `_send_message` inside a `self.lock` region — neither lexically nor through a helper that may be called with
+    the lock held (AST of channel.py on this run).  `_send_user_message` blocks for the whole of a key
+    re-negotiation; the transport thread needs `Channel.lock` to take in stderr data, window adjustments, EOF and
+    CLOSE — so a write under the lock stalls the very thread that has to finish the re-key.  In the model this is
+    the separation of every lock region from the `emit` actions that follow it. -/
+theorem no_send_under_channel_lock : PV.Generated.ChanLock.sendsUnderLock = [] := by
+  decide
+
 /-! ## several parked senders: nobody is left asleep (notify_all vs notify) -/
 
 /-- how the code wakes sleepers, read from the table generated from the AST of channel.py on this run: a call
